@@ -121,6 +121,31 @@ func (c *Ctx) loadPtrRange(s *State, pointee types.Type, ref *Term, lo, hi int, 
 
 // wfLoaded assumes Go's slice type invariant for slices read from the heap (once per term).
 func (c *Ctx) wfLoaded(s *State, comps []Comp, ts []*Term) {
+	if c.wfSeen == nil {
+		c.wfSeen = map[string]bool{}
+	}
+	// every reference stored in the heap was allocated before now
+	for i, comp := range comps {
+		if comp.Sort != SRef || i >= len(ts) {
+			continue
+		}
+		isRef := false
+		switch comp.T.Underlying().(type) {
+		case *types.Pointer, *types.Map, *types.Interface, *types.Chan:
+			isRef = true
+		case *types.Slice:
+			isRef = strings.HasSuffix(comp.Path, ".ref")
+		}
+		if !isRef {
+			continue
+		}
+		key := "alloc:" + ts[i].String() + "@" + s.pc.String()
+		if c.wfSeen[key] {
+			continue
+		}
+		c.wfSeen[key] = true
+		c.assume(s.pc, bvcmp("bvult", ts[i], c.alloc(s)))
+	}
 	for i := 0; i+3 < len(comps); i++ {
 		if !strings.HasSuffix(comps[i].Path, ".ref") || !strings.HasSuffix(comps[i+3].Path, ".cap") {
 			continue
